@@ -56,6 +56,7 @@ type netGenOpts struct {
 	backEdges                      int  // number of edges against the order (cycles, self-loops)
 	flagForward                    float64 // probability that a forward edge carries the recurrent label
 	timeDelayed                    float64 // probability that a link is time delayed
+	chain                          bool    // every hidden neuron is fed by its predecessor (a chain through all hidden neurons)
 }
 
 // genNet draws random layered graph; sensors [0,ns), hidden [ns,ns+nHid), outputs after; forward edges go from lower to
@@ -84,7 +85,11 @@ func genNet(r *rand.Rand, o netGenOpts) *netSpec {
 		if s.isOutput(v) {
 			maxU = ns + s.NHid // outputs are fed by sensors and hidden nodes only
 		}
-		if o.reachable {
+		if o.chain && v > ns && !s.isOutput(v) {
+			add(v-1, v, false)
+		} else if o.chain && s.isOutput(v) && s.NHid > 0 {
+			add(ns+s.NHid-1, v, false)
+		} else if o.reachable {
 			add(r.Intn(maxU), v, false)
 		}
 		for u := 0; u < maxU; u++ {
